@@ -685,9 +685,11 @@ class Engine:
 
     # ------------------------------------------------------------ arithmetic
     def arith(self, op, a, b):
-        if isinstance(op, ast.Mod) and kind_of(a) == "str" and self.reg.external_named("str%") is not None:
+        if isinstance(op, ast.Mod) and (kind_of(a) == "str" or (isinstance(a, Sym) and isinstance(a.k, tuple))) \
+                and self.reg.external_named("str%") is not None:
             # `fmt % value` is text formatting (None and tuples are legal right operands): a contract that models the
-            # formatted text registers the external "str%"; without one the text stays opaque (below)
+            # formatted text registers the external "str%" (the format may be a str or a value of an opaque sort the
+            # contract uses for format strings); without one the text stays opaque (below)
             return self.reg.external_named("str%")(self, [a, b], {})
         a = self.unopt(a, "left operand")
         b = self.unopt(b, "right operand")
